@@ -98,3 +98,48 @@ def depends_on(e, pred, max_nodes=20000):
         if pred(n):
             return True
     return False
+
+
+def data_sources(e, max_nodes=5000):
+    """Access paths / definitions the *value* of e is computed from.  Keys of lookups (`d[k]`, `d.get(k, ..)`), loop
+    domains used only as keys, and conditions are control dependence and are not followed."""
+    out = []
+    seen = set()
+    todo = [e]
+    count = 0
+    while todo:
+        x = todo.pop()
+        if x is None or id(x) in seen or not isinstance(x, ast.AST):
+            continue
+        seen.add(id(x))
+        count += 1
+        if count > max_nodes:
+            break
+        out.append(x)
+        if isinstance(x, Ref):
+            todo.append(x.value)
+        elif isinstance(x, Acc):
+            todo.append(x.init)
+            todo.extend(t[1] for t in x.terms)
+        elif isinstance(x, Phi):
+            todo.extend(x.options)
+        elif isinstance(x, Elt):
+            todo.append(x.value)
+        elif isinstance(x, LoopVar):
+            todo.append(x.iter)
+        elif isinstance(x, Sym):
+            pass
+        elif isinstance(x, ast.Subscript):
+            todo.append(x.value)
+        elif isinstance(x, ast.Call) and isinstance(x.func, ast.Attribute) and x.func.attr == 'get' and x.args:
+            todo.append(x.func.value)
+            todo.extend(x.args[1:])
+        elif isinstance(x, ast.IfExp):
+            todo.extend([x.body, x.orelse])
+        elif isinstance(x, (ast.GeneratorExp, ast.ListComp, ast.SetComp)):
+            todo.append(x.elt)
+        elif isinstance(x, ast.DictComp):
+            todo.append(x.value)
+        else:
+            todo.extend(ast.iter_child_nodes(x))
+    return out
